@@ -141,7 +141,8 @@ claim(
     "(range(), isclose corrections) is the class's one edge function of its index; children are looked up by an index obtained "
     "from the class's own index methods, never from inline arithmetic on the query; views have no store effect on the "
     "histogram and projections are built from fresh counters (shared rules of C06); the four accessors decide the end-of-range "
-    "correction with one predicate; grid cells are addressed by positions of a dense index range or by lookup in the axis' key list. Sub-range numerics (rounding, arange "
+    "correction with one predicate; grid cells are addressed by positions of a dense index range or by lookup in the axis' key list; no view "
+    "takes the length of an array from np.arange over float arguments. Sub-range numerics (rounding, arange "
     "lengths) and mpv are NOT decided.",
     "IrregularlyBin.fill routes inline, so there is no shared routing function to compare with for that class.",
     "DESIGN.md section 3, C13",
@@ -229,7 +230,8 @@ claim(
     "batch changes a Minimize/Maximize exactly as fill does for every region relative to the current extremum; Count adds (per-row "
     "increment) x (number of rows) on every branch; Stack is also checked with descending thresholds; the expression that reaches np.floor "
     "in Bin/SparselyBin._numpy is the expression under math.floor in the scalar index method up to commutativity of + and * only (same "
-    "rounding). One known "
+    "rounding); numpy.average over a batch is guarded by a test that implies a positive batch weight (linear forms over prior entries and "
+    "batch weight); a Count child is handed the batch only once the batch length is known (the shared shape cell is modelled). One known "
     "finding (Sum masks NaN rows). NOT decided: equality of floating-point reductions, key creation order, negative weights.",
     "numpy/bisect library summaries (np.histogram edge conventions, np.unique partition, int64 cast of NaN/inf) are stated "
     "assumptions; every numpy operation used must be in the closed vocabulary (else ANALYSIS-ERROR).",
@@ -245,7 +247,7 @@ claim(
     "child sequence is never indexed by an unclamped float-derived index (scalar and vectorised); __mul__ implements the "
     "scaling table derived from fill; a numeric datum never makes fill raise; no node writes into the weight/data arrays its "
     "siblings also use and child += other_child updates the child (shared rules of C03/C07); Bag keys are normalised so that equal data share "
-    "one key (shared rule of C02). NOT decided: that floats adjacent to an edge land in the numerically right bin, and "
+    "one key (shared rule of C02); a Count child of a collection sees the batch length (shared rule of C03). NOT decided: that floats adjacent to an edge land in the numerically right bin, and "
     "sums up to rounding; invariants through + and += are the structural clauses of C01/C07.",
     "Same assumptions as C02/C03.",
     "DESIGN.md sections 2.4 and 3, C05",
